@@ -284,4 +284,291 @@ theorem record_spec (tsKnown : Nat → Bool) (s : DecState) (bs : Bytes) (it : I
             · intro i
               rw [hrel i, lookup_of_defs (s := s) (s' := trackTs (tsKnown d.mesgNum) d.arch s1 fs) (by rw [trackTs_defs, hs1d]) i]
 
+theorem take_take_app (l ys : List Nat) (n : Nat) (h : n ≤ l.length) : (l.take n ++ ys).take n = l.take n := by
+  have hl : (l.take n).length = n := by rw [List.length_take]; omega
+  rw [List.take_append_of_le_length (by omega), List.take_take]; simp
+theorem drop_take_app (l ys : List Nat) (n : Nat) (h : n ≤ l.length) : (l.take n ++ ys).drop n = ys := by
+  have hl : (l.take n).length = n := by rw [List.length_take]; omega
+  have := List.drop_left (l₁ := l.take n) (l₂ := ys)
+  rw [hl] at this; exact this
+theorem hasN_take_app (l ys : List Nat) (n : Nat) (h : n ≤ l.length) : FitFormat.hasN (l.take n ++ ys) n = true := by
+  apply (FitFormat.hasN_iff _ _).mpr; rw [List.length_append, List.length_take]; omega
+
+/-- `parseDefinition` consumes a definite number of bytes and looks at nothing else -/
+theorem parseDefinition_consumes (h off : Nat) (bs : List Nat) (r : FitFormat.Rec) (zs : List Nat)
+    (hp : FitFormat.parseDefinition h off bs = some (r, zs)) :
+    ∃ k, k ≤ bs.length ∧ zs = bs.drop k ∧ ∀ ys', FitFormat.parseDefinition h off (bs.take k ++ ys') = some (r, ys') := by
+  match bs, hp with
+  | a :: b :: c :: d :: nf :: rest, hp =>
+    simp only [FitFormat.parseDefinition] at hp
+    by_cases h1 : FitFormat.hasN rest (3 * nf) = true
+    · have l1 := (FitFormat.hasN_iff _ _).mp h1
+      simp only [h1, Bool.not_true, Bool.false_eq_true, if_false] at hp
+      by_cases hd : FitFormat.hasDevData h = true
+      · simp only [hd, if_true] at hp
+        cases hr : rest.drop (3 * nf) with
+        | nil => simp [hr] at hp
+        | cons nd rest2 =>
+          simp only [hr] at hp
+          by_cases h2 : FitFormat.hasN rest2 (3 * nd) = true
+          · have l2 := (FitFormat.hasN_iff _ _).mp h2
+            simp only [h2, Bool.not_true, Bool.false_eq_true, if_false] at hp
+            injection hp with hp
+            injection hp with hr1 hr2
+            have hsplit : rest = rest.take (3 * nf) ++ (nd :: rest2) := by rw [← hr]; simp
+            have hl : (rest.take (3 * nf)).length = 3 * nf := by rw [List.length_take]; omega
+            have hlen : rest.length = 3 * nf + 1 + rest2.length := by
+              have := congrArg List.length hsplit
+              rw [List.length_append, hl] at this; simp at this; omega
+            refine ⟨(3 * nf + (3 * nd + 1)) + 5, by simp; omega, ?_, ?_⟩
+            · rw [← hr2]
+              show List.drop (3 * nd) rest2 = List.drop (3 * nf + (3 * nd + 1)) rest
+              rw [← List.drop_drop, hr]; rfl
+            · intro ys'
+              have e : (a :: b :: c :: d :: nf :: rest).take ((3 * nf + (3 * nd + 1)) + 5) =
+                  a :: b :: c :: d :: nf :: (rest.take (3 * nf) ++ (nd :: rest2.take (3 * nd))) := by
+                show a :: b :: c :: d :: nf :: rest.take (3 * nf + (3 * nd + 1)) = _
+                congr 5
+                conv => lhs; rw [hsplit]
+                rw [List.take_append, hl]
+                simp [List.take_take, Nat.add_sub_cancel_left, List.take_succ_cons]
+              rw [e]
+              simp only [List.cons_append, List.append_assoc, FitFormat.parseDefinition]
+              have g1 : FitFormat.hasN (rest.take (3 * nf) ++ (nd :: (rest2.take (3 * nd) ++ ys'))) (3 * nf) = true :=
+                hasN_take_app rest _ _ l1
+              have g2 : (rest.take (3 * nf) ++ (nd :: (rest2.take (3 * nd) ++ ys'))).take (3 * nf) = rest.take (3 * nf) :=
+                take_take_app rest _ _ l1
+              have g3 : (rest.take (3 * nf) ++ (nd :: (rest2.take (3 * nd) ++ ys'))).drop (3 * nf) = nd :: (rest2.take (3 * nd) ++ ys') :=
+                drop_take_app rest _ _ l1
+              have g4 := hasN_take_app rest2 ys' _ l2
+              have g5 := take_take_app rest2 ys' _ l2
+              have g6 := drop_take_app rest2 ys' _ l2
+              simp only [g1, g2, g3, g4, g5, g6, Bool.not_true, Bool.false_eq_true, if_false, hd, if_true, ← hr1]
+          · simp [h2] at hp
+      · have hd' : FitFormat.hasDevData h = false := by simpa using hd
+        simp only [hd', Bool.false_eq_true, if_false] at hp
+        injection hp with hp
+        injection hp with hr1 hr2
+        refine ⟨3 * nf + 5, by simp; omega, ?_, ?_⟩
+        · rw [← hr2]; rfl
+        · intro ys'
+          have e : (a :: b :: c :: d :: nf :: rest).take (3 * nf + 5) = a :: b :: c :: d :: nf :: rest.take (3 * nf) := rfl
+          rw [e]
+          simp only [List.cons_append, FitFormat.parseDefinition, hasN_take_app rest ys' _ l1, take_take_app rest ys' _ l1,
+            drop_take_app rest ys' _ l1, Bool.not_true, Bool.false_eq_true, if_false, hd', ← hr1]
+    · simp [h1] at hp
+
+/-- a decoded record is a non-empty prefix of the input -/
+theorem decodeRecord_suffix (tsKnown : Nat → Bool) (s : DecState) (bs : Bytes) (it : Item) (s' : DecState) (rest : Bytes)
+    (h : decodeRecord tsKnown s bs = .ok (it, s', rest)) : ∃ rec, bs = rec ++ rest ∧ 1 ≤ rec.length := by
+  obtain ⟨hd, tl, rfl, hc⟩ := record_spec tsKnown s bs it s' rest h (fun i => (s.lookup i).map payloadLen) (fun _ => rfl) 0
+  rcases hc with ⟨_, r, hp, _⟩ | ⟨_, n, _, hn, hd', _⟩
+  · obtain ⟨k, hk, hz, _⟩ := parseDefinition_consumes _ _ _ _ _ hp
+    exact ⟨hd :: tl.take k, by rw [hz]; simp, by simp⟩
+  · exact ⟨hd :: tl.take n, by rw [← hd']; simp, by simp⟩
+
+/-- the record loop returns a suffix of its input and consumes at least the announced number of bytes -/
+theorem decodeRecords_suffix (tsKnown : Nat → Bool) : ∀ (fuel : Nat) (s : DecState) (n : Nat) (bs : Bytes) (items : List Item) (r : Bytes),
+    decodeRecords tsKnown fuel s n bs = (items, .ok r) → ∃ pre, bs = pre ++ r ∧ n ≤ pre.length := by
+  intro fuel
+  induction fuel with
+  | zero =>
+    intro s n bs items r h
+    simp only [decodeRecords] at h
+    by_cases hn : n = 0
+    · simp only [hn, if_true] at h; injection h with _ h; injection h with h; exact ⟨[], by simp [h], by omega⟩
+    · simp [hn] at h
+  | succ fuel ih =>
+    intro s n bs items r h
+    simp only [decodeRecords] at h
+    by_cases hn : n = 0
+    · simp only [hn, if_true] at h; injection h with _ h; injection h with h; exact ⟨[], by simp [h], by omega⟩
+    · simp only [hn, if_false] at h
+      cases hd : decodeRecord tsKnown s bs with
+      | error e => simp [hd] at h
+      | ok p =>
+        obtain ⟨it, s', rest1⟩ := p
+        simp only [hd] at h
+        obtain ⟨rec, hrec, hpos⟩ := decodeRecord_suffix tsKnown s bs it s' rest1 hd
+        generalize hsub : decodeRecords tsKnown fuel s' (n - (bs.length - rest1.length)) rest1 = q at h
+        obtain ⟨its, rr⟩ := q
+        simp only at h
+        injection h with _ h2
+        subst h2
+        obtain ⟨pre, hpre, hlen⟩ := ih _ _ _ _ _ hsub
+        refine ⟨rec ++ pre, by rw [hrec, hpre]; simp, ?_⟩
+        have : bs.length - rest1.length = rec.length := by rw [hrec]; simp
+        rw [this] at hlen
+        simp; omega
+
+/-- THE DECODER'S FRAMING REFINES THE SPEC: whenever the decoder's record loop covers `body` exactly, the
+independent framing spec parses `body` into as many records. -/
+theorem records_spec (tsKnown : Nat → Bool) : ∀ (fuel : Nat) (s : DecState) (body rest : Bytes) (items : List Item),
+    decodeRecords tsKnown fuel s body.length (body ++ rest) = (items, .ok rest) →
+    ∀ (defs : FitFormat.Defs) (off fuel2 : Nat), Rel s defs → body.length ≤ fuel2 →
+    ∃ recs, FitFormat.parseRecords fuel2 defs off body = some recs ∧ recs.length = items.length := by
+  intro fuel
+  induction fuel with
+  | zero =>
+    intro s body rest items h defs off fuel2 _ _
+    simp only [decodeRecords] at h
+    by_cases hn : body.length = 0
+    · have hb : body = [] := List.length_eq_zero_iff.mp hn
+      subst hb
+      simp only [List.length_nil, if_true] at h
+      injection h with h1 _
+      exact ⟨[], by cases fuel2 <;> simp [FitFormat.parseRecords], by simp [← h1]⟩
+    · simp [hn] at h
+  | succ fuel ih =>
+    intro s body rest items h defs off fuel2 hrel hfuel
+    simp only [decodeRecords] at h
+    by_cases hn : body.length = 0
+    · have hb : body = [] := List.length_eq_zero_iff.mp hn
+      subst hb
+      simp only [List.length_nil, if_true] at h
+      injection h with h1 _
+      exact ⟨[], by cases fuel2 <;> simp [FitFormat.parseRecords], by simp [← h1]⟩
+    · simp only [hn, if_false] at h
+      cases hd : decodeRecord tsKnown s (body ++ rest) with
+      | error e => simp [hd] at h
+      | ok p =>
+        obtain ⟨it, s', rest1⟩ := p
+        simp only [hd] at h
+        generalize hsub : decodeRecords tsKnown fuel s' (body.length - ((body ++ rest).length - rest1.length)) rest1 = q at h
+        obtain ⟨its, rr⟩ := q
+        simp only at h
+        injection h with h1 h2
+        subst h2
+        -- the record is a prefix `rec` of body; what follows is `pre ++ rest`
+        obtain ⟨rec, hrec, hpos⟩ := decodeRecord_suffix tsKnown s _ it s' rest1 hd
+        obtain ⟨pre, hpre, hlen⟩ := decodeRecords_suffix tsKnown _ _ _ _ _ _ hsub
+        have hbody : body = rec ++ pre := by
+          have : body ++ rest = (rec ++ pre) ++ rest := by rw [hrec, hpre]; simp
+          exact List.append_cancel_right this
+        have hused : (body ++ rest).length - rest1.length = rec.length := by rw [hrec]; simp
+        rw [hused, hbody, List.length_append, Nat.add_sub_cancel_left, hpre] at hsub
+        obtain ⟨hdb, tl, hbs, hc⟩ := record_spec tsKnown s _ it s' rest1 hd defs hrel off
+        -- body = hdb :: btl
+        obtain ⟨btl, hbt⟩ : ∃ btl, body = hdb :: btl := by
+          cases body with
+          | nil => simp at hn
+          | cons x xs => simp at hbs; exact ⟨xs, by rw [hbs.1]⟩
+        have htl : tl = btl ++ rest := by rw [hbt] at hbs; simp at hbs; exact hbs.symm
+        obtain ⟨f2, rfl⟩ : ∃ f2, fuel2 = f2 + 1 := ⟨fuel2 - 1, by rw [hbt] at hfuel; simp at hfuel; omega⟩
+        have hlenb : btl.length = rec.length - 1 + pre.length := by
+          have := congrArg List.length hbody; rw [hbt] at this; simp at this; omega
+        have hpf2 : pre.length ≤ f2 := by
+          have hb2 : body.length = btl.length + 1 := by rw [hbt]; simp
+          omega
+        rcases hc with ⟨hisdef, rc, hp, hrel'⟩ | ⟨hisdef, n', hdefs, hn', hdrop, hrel'⟩
+        · obtain ⟨k, hk, hz, hloc⟩ := parseDefinition_consumes _ _ _ _ _ hp
+          -- rest1 = tl.drop k = pre ++ rest, so k ≤ btl.length and btl.drop k = pre
+          have hk' : k ≤ btl.length := by
+            have e1 : rest1.length = tl.length - k := by rw [hz]; simp
+            have e2 : rest1.length = pre.length + rest.length := by rw [hpre]; simp
+            have e3 : tl.length = btl.length + rest.length := by rw [htl]; simp
+            omega
+          have hdk : btl.drop k = pre := by
+            have : (btl.drop k) ++ rest = pre ++ rest := by
+              rw [← hpre, hz, htl, List.drop_append_of_le_length hk']
+            exact List.append_cancel_right this
+          have hpd : FitFormat.parseDefinition hdb off btl = some (rc, pre) := by
+            have := hloc pre
+            rw [htl, List.take_append_of_le_length hk'] at this
+            have e : btl.take k ++ pre = btl := by rw [← hdk]; exact List.take_append_drop k btl
+            rw [e] at this; exact this
+          obtain ⟨recs, hr1, hr2⟩ := ih s' pre rest its hsub _ (off + rc.len) f2 hrel' hpf2
+          refine ⟨rc :: recs, ?_, by simp [← h1, hr2]⟩
+          rw [hbt]
+          simp only [FitFormat.parseRecords, hisdef, if_true, hpd, hr1]
+        · have hk' : n' ≤ btl.length := by
+            have e1 : rest1.length = tl.length - n' := by rw [← hdrop]; simp
+            have e2 : rest1.length = pre.length + rest.length := by rw [hpre]; simp
+            have e3 : tl.length = btl.length + rest.length := by rw [htl]; simp
+            omega
+          have hdk : btl.drop n' = pre := by
+            have : (btl.drop n') ++ rest = pre ++ rest := by
+              rw [← hpre, ← hdrop, htl, List.drop_append_of_le_length hk']
+            exact List.append_cancel_right this
+          obtain ⟨recs, hr1, hr2⟩ := ih s' pre rest its hsub defs (off + 1 + n') f2 hrel' hpf2
+          refine ⟨({ kind := .data, hdr := hdb, localNum := FitFormat.localNum hdb, off := off, len := 1 + n' } : FitFormat.Rec) :: recs, ?_, by simp [← h1, hr2]⟩
+          rw [hbt]
+          simp only [FitFormat.parseRecords, hisdef, Bool.false_eq_true, if_false, hdefs,
+            (FitFormat.hasN_iff _ _).mpr hk', Bool.not_true, hdk, hr1]
+
+theorem rel_fresh : Rel DecState.fresh FitFormat.Defs.empty := by
+  intro i; simp [DecState.fresh, DecState.lookup, FitFormat.Defs.empty]
+
+theorem parseHeader_hdrBytes (h : Hdr) (ds : Nat) (rest : Bytes) (hs : h.size = 12 ∨ h.size = 14)
+    (hp : h.profileVer < 65536) (hds : ds < 4294967296) :
+    FitFormat.parseHeader (hdrBytes h ds ++ rest) =
+      some ⟨h.size, h.protoVer, h.profileVer, ds, if h.size = 14 then some (Fit.Crc.write 0 (b12 h ds)) else none⟩ := by
+  have hcrc : Fit.Crc.write 0 (b12 h ds) < 2 ^ 16 := Fit.Crc.write_lt 0 (by decide) _
+  have hpf : h.profileVer % 256 + 256 * (h.profileVer / 256 % 256) = h.profileVer := by omega
+  obtain ⟨sz, pv, pf⟩ := h
+  simp only at hs hp hpf
+  rcases hs with rfl | rfl
+  · simp [hdrBytes, FitFormat.parseHeader, Wire.le16, Wire.le32, FitFormat.le16, FitFormat.le32, FitFormat.tag, hpf, le32_val ds hds]
+  · simp [hdrBytes, FitFormat.parseHeader, Wire.le16, Wire.le32, FitFormat.le16, FitFormat.le32, FitFormat.tag, hpf, le32_val ds hds, b12] at hcrc ⊢
+    generalize Fit.Crc.write 0 _ = c at *
+    omega
+
+/-- ONE SEQUENCE parses under the independent framing spec, consuming exactly its bytes -/
+theorem parseSeq_encodeFit (o : Opts) (ho : OptsOK o) (h : Hdr) (ms : List WMsg) (hf : FitOK o h ms) (off : Nat) (tail : Bytes) :
+    ∃ v, FitFormat.parseSeq off (encodeFit o h ms ++ tail) = some (v, tail) ∧
+      v.len = (encodeFit o h ms).length ∧ v.start = off ∧ v.header.size = h.size ∧
+      v.header.dataSize = (encodeMsgs o (freshEnc o) ms).length := by
+  simp only [encodeFit]
+  have hpos := encodeMsgs_pos o (freshEnc o) ms hf.nonempty
+  have hsmall := hf.small
+  have hmod : (encodeMsgs o (freshEnc o) ms).length % 4294967296 = (encodeMsgs o (freshEnc o) ms).length := Nat.mod_eq_of_lt hsmall
+  obtain ⟨items, hdec, _⟩ := encodeMsgs_roundtrip (fun _ => false) o ho.arch ms (freshEnc o) DecState.fresh 0 hf.msgs
+    (DefInv.fresh o.arch o.lruCap ho.capPos ho.cap16 _) ho.cap4
+    (fun hc => ⟨⟨rfl, rfl, Nat.le_refl _, by simp [freshEnc], by decide⟩, hf.ts hc⟩)
+    (Wire.le16 (Fit.Crc.write 0 (encodeMsgs o (freshEnc o) ms)) ++ tail) _ (Nat.le_refl _)
+  obtain ⟨recs, hrecs, _⟩ := records_spec (fun _ => false) _ _ _ _ _ hdec FitFormat.Defs.empty (off + h.size)
+    (encodeMsgs o (freshEnc o) ms).length rel_fresh (Nat.le_refl _)
+  generalize encodeMsgs o (freshEnc o) ms = R at *
+  have hph := parseHeader_hdrBytes h R.length (R ++ (Wire.le16 (Fit.Crc.write 0 R) ++ tail)) hf.size hf.profile hsmall
+  have hlenH : (hdrBytes h R.length).length = h.size := by
+    rcases hf.size with hs | hs <;> simp [hdrBytes, hs, Wire.le16, Wire.le32]
+  refine ⟨⟨off, ⟨h.size, h.protoVer, h.profileVer, R.length, if h.size = 14 then some (Fit.Crc.write 0 (b12 h R.length)) else none⟩,
+      recs, FitFormat.le16 (Fit.Crc.write 0 R % 256) (Fit.Crc.write 0 R / 256 % 256)⟩, ?_, ?_, rfl, rfl, rfl⟩
+  · simp only [FitFormat.parseSeq, hmod, List.append_assoc, hph]
+    have hdrop : (hdrBytes h R.length ++ (R ++ (Wire.le16 (Fit.Crc.write 0 R) ++ tail))).drop h.size =
+        R ++ (Wire.le16 (Fit.Crc.write 0 R) ++ tail) := by
+      rw [← hlenH]; exact List.drop_left
+    simp only [hdrop]
+    have hhas : FitFormat.hasN (R ++ (Wire.le16 (Fit.Crc.write 0 R) ++ tail)) (R.length + 2) = true := by
+      apply (FitFormat.hasN_iff _ _).mpr; simp [Wire.le16]
+    simp only [hhas, Bool.not_true, Bool.false_eq_true, if_false, List.take_left', List.drop_left', hrecs]
+    simp [Wire.le16, List.take_left', List.drop_left']
+  · simp [FitFormat.SeqView.len, hmod, hlenH, Wire.le16]; omega
+
+theorem encodeFit_length_pos (o : Opts) (h : Hdr) (ms : List WMsg) : 0 < (encodeFit o h ms).length := by
+  simp [encodeFit, Wire.le16, List.length_append]; omega
+
+/-- CHAINS: the whole stream parses, one sequence view per encoded sequence, nothing left over -/
+theorem parseSeqs_encodeChain (o : Opts) (ho : OptsOK o) (fits : List (Hdr × List WMsg)) :
+    (∀ f ∈ fits, FitOK o f.1 f.2) → ∀ (off fuel : Nat), fits.length ≤ fuel →
+    ∃ seqs, FitFormat.parseSeqs fuel off (encodeChain o fits) = some seqs ∧ seqs.length = fits.length := by
+  induction fits with
+  | nil => intro _ off fuel _; exact ⟨[], by cases fuel <;> simp [encodeChain, FitFormat.parseSeqs], rfl⟩
+  | cons hm fits ih =>
+    intro hall off fuel hfuel
+    obtain ⟨h, ms⟩ := hm
+    obtain ⟨f2, rfl⟩ : ∃ f2, fuel = f2 + 1 := ⟨fuel - 1, by simp at hfuel; omega⟩
+    obtain ⟨v, hv, hvl, _⟩ := parseSeq_encodeFit o ho h ms (hall (h, ms) (by simp)) off (encodeChain o fits)
+    obtain ⟨seqs, hs, hl⟩ := ih (fun x hx => hall x (by simp [hx])) (off + v.len) f2 (by simp at hfuel; omega)
+    have e : encodeChain o ((h, ms) :: fits) = encodeFit o h ms ++ encodeChain o fits := by simp [encodeChain]
+    have hne : ∃ a t, encodeFit o h ms ++ encodeChain o fits = a :: t := by
+      have := encodeFit_length_pos o h ms
+      cases hE : encodeFit o h ms with
+      | nil => simp [hE] at this
+      | cons a t => exact ⟨a, t ++ encodeChain o fits, by simp⟩
+    obtain ⟨a, t, hat⟩ := hne
+    refine ⟨v :: seqs, ?_, by simp [hl]⟩
+    rw [e, hat, FitFormat.parseSeqs, ← hat, hv]
+    simp only [hs]
+
 end Fit.Bridge
